@@ -619,10 +619,22 @@ func svgColor(v string) (string, bool) {
 	}
 	if strings.HasPrefix(l, "#") {
 		h := l[1:]
-		if len(h) == 3 {
-			h = string([]byte{h[0], h[0], h[1], h[1], h[2], h[2]})
+		for _, c := range h {
+			if !(c >= '0' && c <= '9' || c >= 'a' && c <= 'f') {
+				return "", false
+			}
 		}
-		if len(h) == 6 {
+		if len(h) == 3 || len(h) == 4 {
+			var e []byte
+			for i := 0; i < len(h); i++ {
+				e = append(e, h[i], h[i])
+			}
+			h = string(e)
+		}
+		if len(h) == 8 && h[6:] == "ff" {
+			h = h[:6] // fully opaque
+		}
+		if len(h) == 6 || len(h) == 8 {
 			return "#" + h, true
 		}
 	}
@@ -849,9 +861,9 @@ func genSVGDoc(r *core.Rand) string {
 			}
 			switch a {
 			case "fill", "stroke":
-				fmt.Fprintf(&b, " %s=\"%s\"", a, r.Pick([]string{"red", "#ff0000", "#FF0000", "#f00", "none", "url(#g1)", "currentColor", "#abcdef", "gold", "#ffd700", "black", "#000000", "rgb(1,2,3)", "lightslateblue"}))
+				fmt.Fprintf(&b, " %s=\"%s\"", a, r.Pick([]string{"red", "#ff0000", "#FF0000", "#f00", "none", "url(#g1)", "currentColor", "#abcdef", "gold", "#ffd700", "black", "#000000", "rgb(1,2,3)", "lightslateblue", "#ff00007f", "#ffffff0f", "#f008", "#ff0000ff", "#abcdef5f", "#0000", "#FFD700EF", "#fffaf0", "#FFFAFA"}))
 			case "stroke-width":
-				fmt.Fprintf(&b, " stroke-width=\"%s%s\"", genPathNumber(r, true), r.Pick([]string{"", "px", "PX", "em", "%", "mm"}))
+				fmt.Fprintf(&b, " stroke-width=\"%s%s\"", genPathNumber(r, true), r.Pick([]string{"", "px", "PX", "em", "%", "mm", "pt", "pc", "in", "cm", "ex", "PT"}))
 			case "opacity":
 				fmt.Fprintf(&b, " opacity=\"%s\"", r.Pick([]string{"0.50", ".5", "1", "1.0", "0"}))
 			case "transform":
@@ -898,7 +910,7 @@ func genSVGDoc(r *core.Rand) string {
 			fmt.Fprintf(&b, " d=\"%s\"", genPathData(r))
 			b.WriteString(r.Pick([]string{"/>", "></path>", " />"}))
 		case k == 2:
-			fmt.Fprintf(&b, "<rect x=\"%s\" y=\"%s\" width=\"%s%s\" height=\"%s\"", genPathNumber(r, false), genPathNumber(r, false), genPathNumber(r, true), r.Pick([]string{"", "px", "%"}), genPathNumber(r, true))
+			fmt.Fprintf(&b, "<rect x=\"%s\" y=\"%s\" width=\"%s%s\" height=\"%s\"", genPathNumber(r, false), genPathNumber(r, false), genPathNumber(r, true), r.Pick([]string{"", "px", "%", "pt", "pc", "em", "in"}), genPathNumber(r, true)+r.Pick([]string{"", "", "pt", "mm", "pc"}))
 			shapeAttrs()
 			b.WriteString("/>")
 		case k == 3:
